@@ -729,7 +729,7 @@ func (c *SpecCtx) call(e *ECall) (Term, error) {
 		}
 	}
 	// spec functions
-	if sig, ok := vc.db.Sigs[e.Fun]; ok {
+	if sig, ok := vc.db.Sigs[e.Fun]; ok && e.Fun != "rd_data" && e.Fun != "rd_len" {
 		if len(sig.Args) != len(e.Args) {
 			return Term{}, fmt.Errorf("%s expects %d args", e.Fun, len(sig.Args))
 		}
@@ -793,19 +793,41 @@ func (c *SpecCtx) call(e *ECall) (Term, error) {
 			return Term{}, err
 		}
 		a, b, f := vc.wrComps()
+		w := vc.canon("wr", x.S)
 		switch e.Fun {
 		case "wr":
-			return Term{fmt.Sprintf("(select %s %s)", vc.get(c.state(), a), x.S), "(Array Int Int)", nil}, nil
+			return Term{fmt.Sprintf("(select %s %s)", vc.get(c.state(), a), w), "(Array Int Int)", nil}, nil
 		case "wrlen":
-			return Term{fmt.Sprintf("(select %s %s)", vc.get(c.state(), b), x.S), "Int", nil}, nil
+			return Term{fmt.Sprintf("(select %s %s)", vc.get(c.state(), b), w), "Int", nil}, nil
 		}
-		return Term{fmt.Sprintf("(select %s %s)", vc.get(c.state(), f), x.S), "Int", nil}, nil
-	case "rdpos":
+		return Term{fmt.Sprintf("(select %s %s)", vc.get(c.state(), f), w), "Int", nil}, nil
+	case "rdpos", "rd_data", "rd_len":
 		x, err := c.eval(e.Args[0])
 		if err != nil {
 			return Term{}, err
 		}
-		return Term{fmt.Sprintf("(select %s %s)", vc.get(c.state(), vc.rdposComp()), x.S), "Int", nil}, nil
+		r := vc.canon("rd", x.S)
+		switch e.Fun {
+		case "rd_data":
+			vc.rdposComp()
+			return Term{fmt.Sprintf("(rd_data %s)", r), "(Array Int Int)", nil}, nil
+		case "rd_len":
+			vc.rdposComp()
+			return Term{fmt.Sprintf("(rd_len %s)", r), "Int", nil}, nil
+		}
+		return Term{fmt.Sprintf("(select %s %s)", vc.get(c.state(), vc.rdposComp()), r), "Int", nil}, nil
+	case "owned":
+		x, err := c.eval(e.Args[0])
+		if err != nil {
+			return Term{}, err
+		}
+		return Term{fmt.Sprintf("(select %s %s)", vc.get(c.state(), vc.ownedComp()), x.S), "Bool", nil}, nil
+	case "rdcanon", "wrcanon":
+		x, err := c.eval(e.Args[0])
+		if err != nil {
+			return Term{}, err
+		}
+		return Term{vc.canon(strings.TrimSuffix(e.Fun, "canon"), x.S), "Int", nil}, nil
 	case "chpos":
 		x, err := c.eval(e.Args[0])
 		if err != nil {
